@@ -70,11 +70,13 @@ def run(ctx):
                           {"engine": "TestHostile", "ufs": ufs, "case": cr["case"], "seed": ctx.seed})
     # 4. concurrency-dependent crash sites (a request cancelled before it starts, late and extra answers, disconnects in
     #    mid-flight): seeded sessions under the gate controller, with a client that also misuses fids
-    for i, (n, close) in enumerate([(8, False), (6, True)]):
+    for i, (n, close, hold) in enumerate([(8, False, False), (6, True, False), (4, False, True)]):
+        # hold: one goroutine delayed at one specification action per case (every hook in turn) while the session goes on
         cr = srvfam.consts(ctx, NReq=n, Tags=set(range(1, n + 1)), Fids={1, 2, 3}, Kinds={"Attach", "Stat", "Clunk", "Walk", "Flush"},
-                           Extra=True, Late=True, InitFids={1}, CanClose=close)
-        rc = {"cases": 200 if q else 2500, "nreq": n, "kinds": ["Attach", "Attach", "Stat", "Clunk", "Walk", "Flush", "Flush"], "shared": False,
-              "close": close, "extra": True, "latep": 15, "sendp": 40, "probe": False, "insane": True}
+                           Extra=not hold, Late=True, InitFids={1}, CanClose=close)
+        rc = {"cases": (360 if hold else 200) if q else (3600 if hold else 2500), "nreq": n,
+              "kinds": ["Attach", "Attach", "Stat", "Clunk", "Walk", "Flush", "Flush"], "shared": False,
+              "close": close, "extra": not hold, "latep": 15, "sendp": 40, "probe": False, "insane": not hold, "hold": hold}
         rrep, tp, ep, bp = srvfam.random_run(ctx, cr, rc, "c06rand%d" % i, 900000 + 50000 * i)
         cases += int(rrep.get("cases_total", 0) or 0)
         for crs in rrep.get("crashes") or []:
